@@ -3,16 +3,9 @@
   `SfProps` are about) on inputs supplied by the correspondence check.
 -/
 import SfModel
+import Driver.Util
+import Driver.Codec
 open Sf
-
-def readLines : IO (Array String) := do
-  let h ← IO.getStdin
-  let mut out := #[]
-  repeat
-    let line ← h.getLine
-    if line.isEmpty then break
-    out := out.push (line.trimAscii.toString)
-  return out
 
 def lawOf (s : String) : Option G711.Law :=
   if s == "ulaw" then some G711.ulaw else if s == "alaw" then some G711.alaw else none
@@ -56,4 +49,5 @@ def g711Cmd (args : List String) : IO UInt32 := do
 def main (args : List String) : IO UInt32 := do
   match args with
   | "g711" :: rest => g711Cmd rest
+  | "codec" :: rest => codecCmd rest
   | _ => IO.eprintln "usage: sfmodel <g711|...> ..."; return 2
